@@ -317,17 +317,20 @@ FUNCTIONS['RAND'] = {
 def xrandbetween(bottom, top):
     if isinstance(bottom, bool) or isinstance(top, bool):
         return Error.errors['#VALUE!']
-    dx = top - bottom
-    if dx < 0:
+    bottom, top = math.ceil(bottom), math.floor(top)
+    if top < bottom:
         return Error.errors['#NUM!']
 
-    return bottom + dx * np.random.rand()
+    return bottom + int((top - bottom + 1) * np.random.rand())
 
 
-FUNCTIONS['RANDBETWEEN'] = wrap_ufunc(
-    xrandbetween, input_parser=lambda *a: a,
-    check_error=lambda *a: get_error(*a[::-1])
-)
+FUNCTIONS['RANDBETWEEN'] = {
+    'extra_inputs': collections.OrderedDict([(COMPILING, False)]),
+    'function': wrap_impure_func(wrap_ufunc(
+        xrandbetween, input_parser=lambda *a: a,
+        check_error=lambda *a: get_error(*a[::-1])
+    ))
+}
 
 
 def _xroman(form):
